@@ -67,8 +67,11 @@ class Result:
         key = "%s|%s|%s" % (rid, fn_key, descriptor)
         self.violations.append({"rule": rid, "key": key, "msg": msg, "site": site, "detail": detail})
 
-    def floor(self, rid, what, got, expected_min):
-        """fail closed when a rule matches fewer instances than confirmed by hand"""
+    def floor(self, rid, what, got, expected_min, ref_min=None):
+        """fail closed when a rule matches fewer instances than confirmed by hand (ref_min: the count confirmed for the configurations without the AVX crate)"""
+        cur = self.configs[-1]["cfg"] if self.configs else ""
+        if cur.startswith("ref") and ref_min is not None:
+            expected_min = ref_min
         if got < expected_min:
             self.bad(rid, "<floor>", "anchor-lost:%s" % what,
                      "rule %s analysed %d instances of '%s', floor is %d: an anchor no longer resolves" % (rid, got, what, expected_min))
